@@ -138,4 +138,105 @@ def tokenReplyOf : Option (Option Bool) → TReply
   | some none => .err
   | some (some b) => luaBoolReply b
 
+/-! ### replies the server sends WITHOUT running the script (round 5)
+
+Every outcome kind of the remote party: a server (or a proxy in front of it) may answer an EVALSHA with something the
+scripts never return.  Nothing is executed on the store; exactly one round trip is made. -/
+
+inductive Forged where
+  | str                -- a bulk string: `resp.(int64)` fails
+  | int (v : Int)      -- an integer
+  | nil                -- a nil bulk reply: go-redis reports the error `redis.Nil`
+  deriving Repr, DecidableEq
+
+/-- how `TakeCtx` sees it (`redis.Nil` is an error like any other there) -/
+def Forged.resp : Forged → Resp
+  | .str => .other | .int v => .int v | .nil => .err
+
+/-- how `reserveN` sees it -/
+def Forged.treply : Forged → TReply
+  | .str => .other | .int v => .int v | .nil => .nilReply
+
+/-- what a caller's context does to the script call of an instance on the store path -/
+inductive CtxKind where
+  | background         -- no deadline, not cancelled
+  | future             -- a deadline later than the call lasts: like `background`
+  | cancelled          -- cancelled before the call: `context.Canceled`, nothing is sent
+  | expired            -- deadline passed before the call: `context.DeadlineExceeded`, nothing is sent
+  deriving Repr, DecidableEq
+
+def CtxKind.sends : CtxKind → Bool
+  | .background | .future => true
+  | _ => false
+
+/-- `TakeCtx` under every context kind and every reply kind: a context error is an error reply -/
+def takeOutcome (k : CtxKind) (reply : Resp) : Code × PErr :=
+  if k.sends then takeResult reply else takeResult .err
+
+/-- `reserveN` (instance on the store path) under every context kind and every reply kind -/
+def reserveOutcome (k : CtxKind) (reply : TReply) : TDecision :=
+  if k.sends then reserveDecide reply else reserveDecide .ctxErr
+
+/-- `TokenLimiter.reserveN` of instance `i` when the server answers with a forged reply -/
+def Sys.reserveForged (c : TCfg) (s : Sys) (i ns n : Nat) (f : Forged) : Sys × Ev :=
+  let inst := s.insts i
+  if !inst.alive then s.rescuePath c i inst ns n                      -- redisAlive == 0: nothing is sent
+  else match reserveDecide f.treply with
+    | .rescue => s.rescuePath c i inst.startMonitor ns n
+    | .grant => (s, ⟨i, .store, ns, n, true⟩)
+    | .deny => (s, ⟨i, .store, ns, n, false⟩)
+
+/-! ### the delegating entry points and constructors (round 5)
+
+`Allow()` = `AllowN(time.Now(), 1)`, `AllowCtx(ctx)` = `AllowNCtx(ctx, time.Now(), 1)`, `AllowN(now, n)` =
+`reserveN(context.Background(), now, n)`, `AllowNCtx(ctx, now, n)` = `reserveN(ctx, now, n)`: what reaches `reserveN`. -/
+
+structure ReserveArgs where
+  ctx : CtxKind
+  ns  : Nat
+  n   : Nat
+  deriving Repr, DecidableEq
+
+/-- `wall` = the reading of `time.Now()` the entry point makes -/
+def allowArgs (wall : Nat) : ReserveArgs := ⟨.background, wall, 1⟩
+def allowCtxArgs (ctx : CtxKind) (wall : Nat) : ReserveArgs := ⟨ctx, wall, 1⟩
+def allowNArgs (ns n : Nat) : ReserveArgs := ⟨.background, ns, n⟩
+def allowNCtxArgs (ctx : CtxKind) (ns n : Nat) : ReserveArgs := ⟨ctx, ns, n⟩
+
+/-- `reserveN(ctx, now, n)` with the context kind: a context that sends nothing leaves an instance on the store path
+untouched and refuses; an instance in rescue mode never looks at the context -/
+def Sys.reserveArgs (fixed : Bool) (c : TCfg) (s : Sys) (i : Nat) (a : ReserveArgs) : Sys × Ev :=
+  if (s.insts i).alive && !a.ctx.sends then (s, ⟨i, .store, a.ns, a.n, false⟩)
+  else s.reserveN fixed c i a.ns a.n
+
+/-- `NewTokenLimiter(rate, burst, store, key)`: the two keys (`fmt.Sprintf(tokenFormat, key)`, `…timestampFormat…`) -/
+def newTokenCfg (rate burst : Nat) (key : String) : TCfg :=
+  ⟨rate, burst, "{" ++ key ++ "}.tokens", "{" ++ key ++ "}.ts"⟩
+
+/-- `NewPeriodLimit(period, quota, store, keyPrefix, opts...)`: the only option is `Align()` -/
+structure PLim where
+  period : Int
+  quota  : Int
+  pre    : String
+  align  : Bool
+  deriving Repr, DecidableEq
+
+inductive POpt where
+  | align
+  deriving Repr, DecidableEq
+
+def POpt.apply (l : PLim) : POpt → PLim
+  | .align => { l with align := true }
+
+def newPeriodLimit (period quota : Int) (pre : String) (opts : List POpt) : PLim :=
+  opts.foldl POpt.apply ⟨period, quota, pre, false⟩
+
+/-- `TakeCtx(ctx, key)` of a constructed limiter at local wall-clock second `unix`:
+`none` = the call panics (`Align()` with period 0); the Redis key is `keyPrefix + key`, the limit `quota`, the window
+`calcExpireSeconds()` (what Redis makes of non-positive values: `toNat`) -/
+def PLim.take (l : PLim) (unix : Int) (v : PVSys) (key : String) : Option (PVSys × (Code × PErr) × List Trip) :=
+  match calcExpireZ l.align l.period unix with
+  | none => none
+  | some w => some (v.take l.quota.toNat w.toNat true (l.pre ++ key))
+
 end GoZero.C03
